@@ -133,9 +133,13 @@ def shards(tier: str, seed: int) -> List[Dict[str, Any]]:
     # again), and runs whose time limit is set to the step of the first rewarded event of that very key (a RobotWarehouse
     # delivery / a PacMan pellet / a Cleaner tile on the step that ends the episode)
     for e, cid in (("Snake", "r2c3L40"), ("Snake", "r4c4L200"), ("Sudoku", "veryeasy"), ("Minesweeper", "r3c7m5"),
-                   ("SlidingTilePuzzle", "g3m3sparse"), ("RubiksCube", "n2s3L7"), ("Maze", "r4c7"), ("Cleaner", "r4c7a1")):
+                   ("SlidingTilePuzzle", "g3m3sparse"), ("RubiksCube", "n2s3L7"), ("Maze", "r4c7"), ("Cleaner", "r4c7a1"),
+                   # Knapsack with a generous budget: about one instance in ten is trivial (every item fits at once)
+                   ("Knapsack", "n8b3int")):
         out.append({"id": f"{e}|{cid}|policy-complete", "env": e, "cfg": E.cfg_by_id(e, cid), "policy": "complete", "steps": 260 if tier == "quick" else 800, "weight": HEAVY.get(e, 1.0)})
-    for e, cid in (("RobotWarehouse", "s2x1h3a2r1q2L7"), ("RobotWarehouse", "default"), ("Cleaner", "r4c7a1"), ("LevelBasedForaging", "g6a3f2v1L20")):
+    for e, cid in (("RobotWarehouse", "s2x1h3a2r1q2L7"), ("RobotWarehouse", "default"), ("Cleaner", "r4c7a1"), ("LevelBasedForaging", "g6a3f2v1L20"),
+                   # one food: the first rewarded event is the *last* food, completion and time limit fall on the same step
+                   ("LevelBasedForaging", "g5a1f1v1L3")):
         out.append({"id": f"{e}|{cid}|limit-at-first-reward", "env": e, "cfg": E.cfg_by_id(e, cid), "policy": "complete", "coincide_reward": True, "weight": HEAVY.get(e, 1.0)})
     for e, cid, kind in INNER[tier]:
         out.append({"id": f"{e}|{cid}|inner-{kind}", "env": e, "cfg": E.cfg_by_id(e, cid), "inner": kind, "weight": HEAVY.get(e, 1.0)})
